@@ -250,6 +250,11 @@ class Parser(object):
 
     def p_enum_member(self, t):
         '''enum_member : unique_id EQUALS expression'''
+        self._parser_check(
+            0 <= t[3] < (1 << 32),
+            "enumerator '{}' value out of 32-bit unsigned range".format(t[1]),
+            t.lineno(1), t.lexpos(1)
+        )
         member = model.EnumMember(t[1], str(t[3]))
         self.constdecls[t[1]] = member
         t[0] = member
@@ -373,6 +378,11 @@ class Parser(object):
 
     def p_union_member(self, t):
         '''union_member : expression COLON type_spec ID'''
+        self._parser_check(
+            0 <= t[1] < (1 << 32),
+            "discriminator of '{}' out of 32-bit unsigned range".format(t[4]),
+            t.lineno(4), t.lexpos(4)
+        )
         t[0] = (model.UnionMember(t[4], t[3][0], str(t[1]), definition=t[3][1]), t.lineno(4), t.lexpos(4))
 
     def p_type_spec_1(self, t):
